@@ -14,9 +14,11 @@ class Tree:
         self.res = []           # real resource handles: dict(kind, path|semname)
         self.errlog = open(os.path.join(scratch, "root.err"), "w")
 
-    def start_root(self):
+    def start_root(self, conf):
         env = dict(os.environ)
-        self.root = subprocess.Popen([sys.executable, "-m", "engine.real.tree_agent", self.scratch, "r"], stdout=self.errlog,
+        env["VERIF_TREE_IMPORT"] = "1" if conf["imp"] else "0"
+        flags = ["-W", "error"] if conf["strict"] else []
+        self.root = subprocess.Popen([sys.executable] + flags + ["-m", "engine.real.tree_agent", self.scratch, "r"], stdout=self.errlog,
                                      stderr=self.errlog, stdin=subprocess.DEVNULL, start_new_session=True, env=env)
         self.pids["r"] = self.root.pid
 
@@ -66,6 +68,25 @@ def alive_pid(pid):
     return pid is not None and proc_state(pid) not in (None, "Z", "X")
 
 
+def session_trackers(sid):
+    """pids of live resource-tracker processes in the session of the root agent"""
+    out = []
+    for d in os.listdir("/proc"):
+        if not d.isdigit():
+            continue
+        try:
+            st = open("/proc/%s/stat" % d).read()
+            f = st[st.rindex(")") + 2:].split()
+            if int(f[3]) != sid or f[0] in ("Z", "X"):
+                continue
+            cl = open("/proc/%s/cmdline" % d, "rb").read()
+        except (OSError, ValueError):
+            continue
+        if b"loky.backend.resource_tracker import main" in cl:
+            out.append(int(d))
+    return out
+
+
 def exists(r):
     if r["kind"] == "file":
         return os.path.exists(r["path"])
@@ -84,15 +105,32 @@ def wait_for(pred, timeout):
 def replay(case, scratch):
     t = Tree(scratch)
     why = None
+    conf = case["conf"]
     try:
-        t.start_root()
+        t.start_root(conf)
+        if conf["imp"]:
+            # the root's import-time lock is resource 1 of the specification's initial state
+            r = t.cmd("r", op="tracker")
+            if not r.get("ok") or not r.get("imp"):
+                return "harness: the root agent did not report its import-time lock: %s" % r, t
+            t.res.append(dict(kind="sem", semname=r["imp"]["semname"], key="imp", imp_tracker=r["imp"]["tracker"]))
+            t.tmap[1] = r["tracker"]
         for k, (op, exp) in enumerate(zip(case["steps"], case["exp"])):
             kind = op[0]
             if kind == "spawn":
-                r = t.cmd(op[1], op="spawn", child=op[2])
+                r = t.cmd(op[1], op="spawn", child=op[2], method=conf["method"])
                 if not r.get("ok"):
                     return "step %d %s failed: %s" % (k + 1, op, r.get("err")), t
                 t.pids[op[2]] = r["pid"]
+                if len(exp["res"]) > len(t.res):
+                    # loky_init_main: the child imported the main module, whose lock is a new resource of the tree
+                    r = t.cmd(op[2], op="tracker")
+                    if not r.get("ok"):
+                        return "step %d %s: process %s does not answer (%s)" % (k + 1, op, op[2], r.get("err")), t
+                    if not r.get("imp"):
+                        return ("step %d %s: the child started with loky_init_main did not import the parent's main module "
+                                "(no import-time lock)" % (k + 1, op)), t
+                    t.res.append(dict(kind="sem", semname=r["imp"]["semname"], key="imp", imp_tracker=r["imp"]["tracker"]))
             elif kind == "track":
                 if op[2] == "file":
                     path = os.path.join(scratch, "res%d" % len(t.res))
@@ -100,13 +138,13 @@ def replay(case, scratch):
                     t.res.append(dict(kind="file", path=path))
                 else:
                     r = t.cmd(op[1], op="track_sem", id=len(t.res))
-                    t.res.append(dict(kind="sem", semname=r.get("semname", "?")))
+                    t.res.append(dict(kind="sem", semname=r.get("semname", "?"), key=len(t.res)))
                 if not r.get("ok"):
                     return "step %d: a tracked operation in process %s failed instead of transparently using / restarting the tracker: %s" % (k + 1, op[1], r.get("err")), t
             elif kind == "collect":
                 i = op[1] - 1
                 owner = case["owners"][i]
-                r = t.cmd(owner, op="collect", id=i)
+                r = t.cmd(owner, op="collect", id=t.res[i]["key"])
             elif kind == "die":
                 t.cmd(op[1], op="die", how=op[2], timeout=10)
                 pid = t.pids[op[1]]
@@ -143,6 +181,20 @@ def replay(case, scratch):
                     if got is None or got in t.tmap.values():
                         return "step %d %s: process %s should be served by a newly started tracker, it reports pid %s" % (k + 1, op, p, got), t
                     t.tmap[want] = got
+            # the tracker that served each import-time lock, and stray tracker processes
+            for i, want in enumerate(exp["res"]):
+                it = t.res[i].get("imp_tracker", 0)
+                if it != 0 and want["tracker"] in t.tmap and it != t.tmap[want["tracker"]]:
+                    return ("step %d %s: the lock created while process %s imported the main module was registered with tracker pid %s, "
+                            "but the tracker of its tree is pid %s (every process of a tree must report to the same tracker)"
+                            % (k + 1, op, case["owners"][i], it, t.tmap[want["tracker"]])), t
+            strays = lambda: [p for p in session_trackers(t.root.pid) if p not in t.tmap.values()]
+            # (a process that ends normally with a dead tracker starts a short-lived one for its finalizers: give it time to end)
+            wait_for(lambda: not strays(), 4)
+            stray = strays()
+            if stray:
+                return ("step %d %s: tracker process(es) %s exist in the tree besides the tracker(s) %s its processes report to"
+                        % (k + 1, op, stray, sorted(t.tmap.values()))), t
             # tracker liveness
             for tid, want in exp["tAlive"].items():
                 pid = t.tmap.get(int(tid))
